@@ -88,3 +88,38 @@ Proof.
   - rewrite (flat_zero_after f rest e1 S2 E2). lra.
   - rewrite (IH e1 S2 E2 U). lra.
 Qed.
+
+(* ---- C12: every bin receives a non-negative amount, and nothing outside [f0, f2] ---- *)
+Lemma slope_nonneg d : 0 <= d -> 0 <= slope d.
+Proof.
+  intros H. unfold slope, eqb, of_Z. destruct (Req_EM_T d 0) as [E|N]; [lra|]. unfold Rdiv. apply Rmult_le_pos; [lra|]. left. apply Rinv_0_lt_compat. lra.
+Qed.
+Lemma G1_mono f0 f1 a b : f0 <= f1 -> a <= b -> G1 f0 f1 a <= G1 f0 f1 b.
+Proof.
+  intros H01 Hab. unfold G1, clamp. change (minn (maxn b f0) f1) with (clipn b f0 f1). change (minn (maxn a f0) f1) with (clipn a f0 f1). unfold sqn.
+  c3 b f0 f1 H01; c3 a f0 f1 H01; try lra; nra.
+Qed.
+Lemma G2_mono f1 f2 a b : f1 <= f2 -> a <= b -> G2 f1 f2 a <= G2 f1 f2 b.
+Proof.
+  intros H12 Hab. unfold G2, clamp. change (minn (maxn b f1) f2) with (clipn b f1 f2). change (minn (maxn a f1) f2) with (clipn a f1 f2). unfold sqn.
+  c3 b f1 f2 H12; c3 a f1 f2 H12; try lra; nra.
+Qed.
+Lemma contrib_nonneg f0 f1 f2 a b : f0 <= f1 -> f1 <= f2 -> a <= b -> 0 <= contrib f0 f1 f2 a b.
+Proof.
+  intros H01 H12 Hab. destruct (Rle_lt_or_eq_dec f0 f2 ltac:(lra)) as [LT|EQ].
+  - rewrite (contrib_tele f0 f1 f2 a b H01 H12 LT Hab).
+    pose proof (slope_nonneg ((f2 - f0) * (f1 - f0)) ltac:(nra)) as S1. pose proof (slope_nonneg ((f2 - f0) * (f2 - f1)) ltac:(nra)) as S2.
+    pose proof (G1_mono f0 f1 a b H01 Hab). pose proof (G2_mono f1 f2 a b H12 Hab). nra.
+  - assert (f1 = f0) by lra. subst f1 f2. rewrite flat_contrib. destruct (leb a f0 && ltb f0 b); lra.
+Qed.
+Lemma contrib_support f0 f1 f2 a b : f0 <= f1 -> f1 <= f2 -> a <= b -> b <= f0 \/ f2 <= a -> f0 < f2 \/ b < f0 \/ f2 < a -> contrib f0 f1 f2 a b = 0.
+Proof.
+  intros H01 H12 Hab OUT ND. destruct (Rle_lt_or_eq_dec f0 f2 ltac:(lra)) as [LT|EQ].
+  - rewrite (contrib_tele f0 f1 f2 a b H01 H12 LT Hab).
+    assert (Z1: G1 f0 f1 b - G1 f0 f1 a = 0 /\ G2 f1 f2 b - G2 f1 f2 a = 0).
+    { unfold G1, G2, clamp. change (minn (maxn b f0) f1) with (clipn b f0 f1). change (minn (maxn a f0) f1) with (clipn a f0 f1).
+      change (minn (maxn b f1) f2) with (clipn b f1 f2). change (minn (maxn a f1) f2) with (clipn a f1 f2). unfold sqn.
+      destruct OUT as [O|O]; c3 b f0 f1 H01; c3 a f0 f1 H01; c3 b f1 f2 H12; c3 a f1 f2 H12; split; try lra; nra. }
+    destruct Z1 as [-> ->]. lra.
+  - assert (f1 = f0) by lra. subst f1 f2. rewrite flat_contrib. destruct (leb a f0) eqn:E1; destruct (ltb f0 b) eqn:E2; bools; cbn [andb]; lra.
+Qed.
